@@ -7,7 +7,7 @@ from ..lib import (construct, std_facts, calls_of_node, facts_at, def_of,
                    terminates_in_raise, in_subtree)
 from ..resolve import store_accesses
 from .common import (LOCK_SETTER, hasheq, lock_facts, lock_model, nodes_calling,
-                     unlocked_at)
+                     unlocked_at, finalize_conflict_guard)
 
 GUARDED_STORES = ['_CONFIG', '_CONFIG_PROVENANCE', '_REGISTRY', '_INVERSE_REGISTRY']
 
@@ -220,21 +220,7 @@ def run(ctx):
     ok = bool(hook_calls) and all(len(c.args) == 1 and u(c.args[0]) == '_CONFIG' for c in hook_calls)
     ctx.check(ok, 'C12.finalize-order', fcon, 'each hook is called with the binding store itself (configuration as parsed)',
               'hooks are not called with the binding store', ff.loc(loop_st), instance='hook-arg')
-    # conflict guard dominates the insertion
-    ins = [n for n in g.live_nodes() if n.kind == 'stmt' and isinstance(n.ast, ast.Assign)
-           and isinstance(n.ast.targets[0], ast.Subscript) and in_subtree(n.ast, loop_st)]
-    okc = False
-    for n in ins:
-      sub = n.ast.targets[0]
-      key = u(sub.slice)
-      cont = u(sub.value)
-      if ('c', '%s in %s' % (key, cont), False) in facts[n.id]:
-        d = def_of(facts[n.id], key)
-        okc = d is not None and 'ParsedBindingKey.parse' in d
-    ctx.check(okc, 'C12.finalize-order', fcon,
-              'each hook update is keyed by the parsed (validated) binding key and inserted only if that key is not yet present, else raise',
-              'the conflicting-update guard (`key in collected: raise`) no longer dominates the insertion, or the key is not the parsed binding key',
-              ff.loc(loop_st), instance='conflict-guard')
+  finalize_conflict_guard(ctx, 'C12.finalize-order')
 
   # ---- C12.conflict
   hasheq(ctx, 'C12.conflict')
